@@ -149,11 +149,12 @@ func (k Keeper) AdjustPool(
 	k.SetRewardRules(ctx, pool.Id, pool.Rules)
 
 	// expiredHeight = [(srcEndHeight-beginPoint)*srcRewardPerBlock +appendReward]/RewardPerBlock + beginPoint
-	rewardsPerBlock := types.RewardRules(pool.Rules).RewardsPerBlock()
-	availableHeight := availableReward[0].Amount.Quo(rewardsPerBlock.AmountOf(availableReward[0].Denom)).Int64()
-	for _, c := range availableReward[1:] {
-		rpb := rewardsPerBlock.AmountOf(c.Denom)
-		inteval := c.Amount.Quo(rpb).Int64()
+	// the minimum is taken over every reward of the pool: a reward with no available budget ends the pool now
+	// (availableReward is a Coins value and silently drops the rewards whose available amount is zero)
+	rules = types.RewardRules(pool.Rules)
+	availableHeight := availableReward.AmountOf(rules[0].Reward).Quo(rules[0].RewardPerBlock).Int64()
+	for i := range rules {
+		inteval := availableReward.AmountOf(rules[i].Reward).Quo(rules[i].RewardPerBlock).Int64()
 		if availableHeight > inteval {
 			availableHeight = inteval
 		}
